@@ -255,15 +255,6 @@ theorem subs_storeOne (s : Store) (box : Bytes) (l : Link) (r : Nat) (new : List
       · rename_i s' hm; exact subs_move _ _ _ _ _ _ hm
       · rfl
     · rfl
-theorem subs_storeSeq (s : Store) (box : Bytes) (new : List Bytes) (mode : Flags.Mode) (ranks : List Nat) :
-    (s.storeSeq box new mode ranks).1.subs = s.subs := by
-  induction ranks generalizing s with
-  | nil => rfl
-  | cons r rs ih =>
-    unfold Store.storeSeq
-    split
-    · exact ih s
-    · simp only []; rw [ih, subs_storeOne]
 theorem subs_storeUid (s : Store) (box : Bytes) (new : List Bytes) (mode : Flags.Mode) (uids : List Nat) :
     (s.storeUid box new mode uids).1.subs = s.subs := by
   induction uids generalizing s with
@@ -273,6 +264,12 @@ theorem subs_storeUid (s : Store) (box : Bytes) (new : List Bytes) (mode : Flags
     split
     · exact ih s
     · simp only []; rw [ih, subs_storeOne]
+theorem subs_storeSeq (s : Store) (box : Bytes) (new : List Bytes) (mode : Flags.Mode) (ranks : List Nat) :
+    (s.storeSeq box new mode ranks).1.subs = s.subs := by
+  unfold Store.storeSeq
+  split
+  · rfl
+  · exact subs_storeUid s box new mode _
 
 def Op.isSubOp : Op → Bool
   | .subscribe _ => true
